@@ -498,10 +498,15 @@ class RemoteWorker(Worker, metaclass=RemoteWorkerMeta):
             self._remote_side = True
             self._is_backend = False
 
-            logger.debug('Client data socket is: {}', self._socket.getpeername())
+            try:
+                logger.debug('Client data socket is: {}', self._socket.getpeername())
+                local_addr = self._socket.getsockname()[0]
+            except OSError:
+                # the client has already gone (connection reset right after it sent the worker): same as any other disconnect
+                raise ConnectionClosedError()
             logger.debug('Creating a control socket for this connection...')
             self._ctrl_sock = socket.socket(socket.AF_INET, socket.SOCK_STREAM)
-            self._ctrl_sock.bind((self._socket.getsockname()[0], 0))
+            self._ctrl_sock.bind((local_addr, 0))
             self._ctrl_sock.listen()
             logger.debug('Control socket listening at {}', self._ctrl_sock.getsockname())
 
